@@ -75,6 +75,8 @@ Trait ==
       \* non-collinear moments (three components per atom)
       ncl    |-> c \in {"abacus", "vasp", "qe"},
       points |-> c = "vasp",
+      \* the rows of the parsed output carry the atom's id (LAMMPS dump: id type x y z fx fy fz)
+      ids    |-> c = "lammps",
       \* write_crystal_structure needs the optional_structure_info of a file of this
       \* format, which convert_crystal_structure does not have
       needsinfo |-> c \in {"qe", "wien2k", "elk", "siesta", "cp2k", "crystal", "fleur", "abacus"}]]
@@ -92,10 +94,11 @@ VARIABLES pc, calc, cell, phase, order, file, back, outp, result,
           resid,    \* output of the perfect supercell (fz)
           orbit,    \* sym: orbit number of every atom of the displaced cell
           calc2,    \* conversion: the output interface ("" otherwise)
-          zr        \* fz: which file is given as the perfect-supercell reference (see ZeroRef)
+          zr,       \* fz: which file is given as the perfect-supercell reference (see ZeroRef)
+          rowp      \* order of the ROWS of the displaced run's output (row r = atom rowp[r] of the file)
 
-vars == <<pc, calc, cell, phase, order, file, back, outp, result, mode, cell0, order0, resid, orbit, calc2, zr>>
-aux == <<mode, cell0, order0, resid, orbit, calc2, zr>>
+vars == <<pc, calc, cell, phase, order, file, back, outp, result, mode, cell0, order0, resid, orbit, calc2, zr, rowp>>
+aux == <<mode, cell0, order0, resid, orbit, calc2, zr, rowp>>
 
 -----------------------------------------------------------------------------
 (* helpers *)
@@ -150,7 +153,7 @@ Init ==
   /\ pc = "choose" /\ calc = "vasp" /\ cell = <<>> /\ phase = "perfect"
   /\ order = <<>> /\ file = NoFile /\ back = <<>> /\ outp = <<>>
   /\ result = [status |-> "none"]
-  /\ mode = NoMode /\ cell0 = <<>> /\ order0 = <<>> /\ resid = <<>> /\ orbit = <<>> /\ calc2 = "" /\ zr = NoRef
+  /\ mode = NoMode /\ cell0 = <<>> /\ order0 = <<>> /\ resid = <<>> /\ orbit = <<>> /\ calc2 = "" /\ zr = NoRef /\ rowp = <<>>
 
 Choose ==
   /\ pc = "choose" /\ "pipeline" \in Tasks
@@ -169,7 +172,7 @@ ChooseConvert ==
        /\ cell' = MakeCell(s, FALSE) /\ cell0' = MakeCell(s, FALSE)
   /\ phase' = "convert-in"
   /\ pc' = "order"
-  /\ UNCHANGED <<order, file, back, outp, result, mode, order0, resid, orbit, zr>>
+  /\ UNCHANGED <<order, file, back, outp, result, mode, order0, resid, orbit, zr, rowp>>
 
 Order ==
   /\ pc = "order"
@@ -225,7 +228,7 @@ Displace ==
   /\ cell0' = cell /\ order0' = order
   /\ phase' = "displaced"
   /\ pc' = "order"
-  /\ UNCHANGED <<calc, order, file, back, outp, result, resid, calc2, zr>>
+  /\ UNCHANGED <<calc, order, file, back, outp, result, resid, calc2, zr, rowp>>
 
 (* the force on an atom is a function of which atom it is: token = its id;    *)
 (* the residual force (perfect supercell) of dataset atom a: Res(a)           *)
@@ -236,13 +239,28 @@ Res(a) == 100 * a
 (* residual; perfect run (fz): residual.  sym: only the last member of every   *)
 (* orbit is listed.                                                            *)
 Listed(k) == ~mode.sym \/ \A j \in 1..Len(cell) : orbit[j] = orbit[order[k]] => j <= order[k]
-Collect ==
+(* ROW ORDER.  A calculator need not list the atoms in the order of its input *)
+(* file (LAMMPS dumps rows in the order of its MPI domains).  Row r of the     *)
+(* output belongs to atom q[r] of the structure file.  Where the rows carry    *)
+(* the atom's id the parser puts row r at slot id_r, so the collected output   *)
+(* does not depend on q; where they carry positions only (VASP), slot k gets   *)
+(* row k and a reordered output is caught by the agreement check; outputs with *)
+(* neither are positional and are listed in file order by definition.  q is    *)
+(* enumerated over ALL permutations (identity, reversed, cyclic shifts and the *)
+(* other non-involutive ones, ...) for cells of up to 4 atoms.                  *)
+Perms(n) == {p \in [1..n -> 1..n] : \A i, j \in 1..n : i # j => p[i] # p[j]}
+RowOrders(c, n, fz) ==
+  IF (Trait[c].ids \/ (Trait[c].points /\ ~fz)) /\ n <= 4 THEN Perms(n) ELSE {Identity(n)}
+CollectWith(q) ==
   /\ pc = "collect"
+  /\ rowp' = q
   /\ outp' = [k \in {k \in 1..Len(back) : Listed(k)} |->
-                [point |-> back[k].id,
-                 force |-> Force(back[k].id) + (IF mode.fz THEN Res(order[k]) ELSE 0)]]
+                LET a == IF Trait[calc].ids THEN k ELSE q[k]       \* file atom whose row lands in slot k
+                IN [point |-> back[a].id,
+                    force |-> Force(back[a].id) + (IF mode.fz THEN Res(order[a]) ELSE 0)]]
   /\ pc' = IF mode.fz THEN "zeroref" ELSE "agree"
-  /\ UNCHANGED <<calc, cell, phase, order, file, back, result, aux>>
+  /\ UNCHANGED <<calc, cell, phase, order, file, back, result, mode, cell0, order0, resid, orbit, calc2, zr>>
+Collect == \E q \in RowOrders(calc, Len(back), mode.fz) : CollectWith(q)
 
 (* --fz: the FIRST file is the output of the perfect supercell.  It is a file   *)
 (* of its own, not necessarily the run of the supercell file phonopy wrote:     *)
@@ -255,7 +273,6 @@ Collect ==
 (*   "all"  - every atom at a displaced position                               *)
 (* Each line carries the position (where the output has positions) and the      *)
 (* residual force of the atom that sits there.                                  *)
-Perms(n) == {p \in [1..n -> 1..n] : \A i, j \in 1..n : i # j => p[i] # p[j]}
 Fixed(p) == Cardinality({i \in DOMAIN p : p[i] = i})
 RefVariants(n, own) ==
   {[kind |-> "own", p |-> own, e |-> 0]}
@@ -272,7 +289,7 @@ ZeroRefWith(v) ==
   /\ zr' = v
   /\ resid' = [k \in 1..Len(cell0) |-> RefLine(v, cell0, k)]
   /\ pc' = "agree"
-  /\ UNCHANGED <<calc, cell, phase, order, file, back, outp, result, mode, cell0, order0, orbit, calc2>>
+  /\ UNCHANGED <<calc, cell, phase, order, file, back, outp, result, mode, cell0, order0, orbit, calc2, rowp>>
 (* foreign reference files are explored where the output carries positions (the *)
 (* clause of C17), for cells small enough to enumerate all permutations          *)
 ZeroRef ==
@@ -372,7 +389,11 @@ InvGroupingIsTrait ==
 InvIdempotent == (AfterRead /\ Trait[calc].groups) => GroupPerm(SpeciesOf(back)) = Identity(Len(back))
 PDone == Pipeline /\ pc = "done"
 InvForcesPaired == (PDone /\ Trait[calc].points) => ReqForcesPaired(cell, result)
-InvNotRefused == (PDone /\ zr.kind = "own") => ReqNotRefusedWhenSameOrder(cell, back, result)
+RowsInOrder == rowp = Identity(Len(rowp)) \/ Trait[calc].ids
+InvNotRefused == (PDone /\ zr.kind = "own" /\ RowsInOrder) => ReqNotRefusedWhenSameOrder(cell, back, result)
+(* rows that carry ids: whatever their order, a file whose atoms are in the dataset's order is built and paired *)
+InvRowOrderIrrelevant ==
+  (PDone /\ Trait[calc].ids /\ IsIdentityOrder(cell, back)) => (result.status = "built" /\ ReqForcesPaired(cell, result))
 InvZeroRef == (PDone /\ mode.fz /\ Trait[calc].points) =>
                  /\ ReqZeroRef(cell0, resid, result)
                  /\ ReqZeroRefAccepted(cell, back, cell0, resid, result)
@@ -393,5 +414,7 @@ InvMispairedOnlyUnchecked ==
   Mispaired => (Trait[calc].groups /\ ~Trait[calc].points /\ ~IsIdentityOrder(cell, back) /\ calc \notin Unpermutes)
 (* the refusal is exactly the interleaved case *)
 InvRefusedIffReordered ==
-  (PDone /\ Trait[calc].points /\ zr.kind = "own") => (result.status = "refused" <=> ~IsIdentityOrder(cell, back))
+  (PDone /\ Trait[calc].points /\ zr.kind = "own") =>
+     \* ... of the rows as the output lists them: file order composed with the row order
+     (result.status = "refused" <=> ~(\A k \in 1..Len(cell) : back[rowp[k]].id = cell[k].id))
 =============================================================================
